@@ -11,7 +11,7 @@ From Coq Require Import List ZArith Bool Lia.
 From Coq.Strings Require Import Byte.
 From Verif Require Import Base.Bytes Base.BE Wire.TType Wire.WVal Wire.Codec Wire.CodecFacts
   Wire.Schema Wire.Value Wire.Std Wire.StdFacts Wire.Fast Wire.FastFacts Wire.FastReadFacts Wire.FastStdFacts
-  Wire.FastBitset Wire.FastBitsetFacts Wire.FastBitsetLink.
+  Wire.FastBitset Wire.FastBitsetFacts Wire.FastBitsetLink Wire.FastRoundTrip.
 Import ListNotations.
 Open Scope Z_scope.
 
@@ -128,6 +128,19 @@ Theorem C10_fast_read_ignores_unknown : forall e s init wfs rest v,
   fast_read e s init (enc (WStruct wfs) ++ rest) = FOk (v, Z.of_nat (length (enc (WStruct wfs)))).
 Proof. exact fast_read_ignores_unknown. Qed.
 Print Assumptions C10_fast_read_ignores_unknown.
+
+(* ---- the fast codec end to end. For every schema (wf_env), struct-like and well-typed value whose wire form
+        nests at most 64 deep: FastRead, started from NewX(), of the bytes FastAppend wrote — followed by
+        anything — yields the value (its normal form: the object the standard Write/Read round trip of C02
+        yields) and has consumed exactly BLength() bytes. (The depth premise is inherited from
+        fast_read_eq_std_read; no field is skipped here. Sorting the fields keeps the depth: depth_sortw.) ---- *)
+
+Theorem C10_fast_round_trip : forall e s v w,
+  wf_env e = true -> find_struct e (s_name s) = Some s -> wt e s v = true ->
+  to_wire e s v = Ok w -> (depth w <= default_recursion_depth)%nat ->
+  forall rest, fast_read e s (new_struct e s) (fast_append e s v ++ rest) = FOk (norm_struct e s v, blength e s v).
+Proof. exact fast_round_trip_depth. Qed.
+Print Assumptions C10_fast_round_trip.
 
 (* ---- the required-field bit set (generator/fastgo/bitset.go; model Wire/FastBitset.v, tied to the emitted text
         for n = 0 .. 72 by the correspondence). For EVERY number n of required fields and every collection of
